@@ -71,12 +71,14 @@ Checks(ev) ==
          << <<"pre.in-gt", InGT(a) /\ InCyclotomic(a)>>, <<"canon", C12(ev.out.r)>>, <<"value", V12(ev.out.r) = F12Exp(a, Norm(ev.k))>> >>
     [] o = "gt.op" ->
          LET a == V12(ev.a)  w == ev.which IN
-         CASE w = "add" -> << <<"value", V12(ev.out.r) = F12Mul(a, V12(ev.b))>>, <<"canon", C12(ev.out.r)>> >>
+         CASE w = "add" -> << <<"value", V12(ev.out.r) = F12Mul(a, IF Has(ev, "alias") /\ ev.alias = 3 THEN a ELSE V12(ev.b))>>, <<"canon", C12(ev.out.r)>> >>
            [] w = "negate" -> << <<"value", F12Mul(V12(ev.out.r), a) = F12!EOne>>, <<"canon", C12(ev.out.r)>> >>
            [] w = "double" -> << <<"pre.in-gt", InCyclotomic(a)>>, <<"value", V12(ev.out.r) = F12Mul(a, a)>>, <<"canon", C12(ev.out.r)>> >>
            [] w = "equal" -> << <<"value", ev.out.v = (IF a = V12(ev.b) THEN 1 ELSE 0)>> >>
            [] w = "marshal" -> << <<"bytes", ev.out.bytes = BE12(a)>>, <<"roundtrip", V12(ev.out.back) = a>>, <<"size", ev.out.size = 576 /\ ev.out.guard = 1>> >>
            [] OTHER -> << <<"unknown-op", FALSE>> >>
+    [] o = "gt.finalexp" ->
+         << <<"canon", C12(ev.out.r)>>, <<"value", V12(ev.out.r) = F12Exp(V12(ev.a), FinalExponent)>> >>
     [] o = "gt.random" ->
          LET a == V12(ev.a)  y == Norm(ev.out.y)
              d == TakeDigits(ev.out.reqs, 1, <<>>)
